@@ -628,6 +628,7 @@ impl Property for C02 {
          certificate check on whatever state the assembler claims: instruction sizes are read from output.spans, the layout and every label are recomputed from them, \
          every instruction's syntactic survivors are evaluated with the FINAL symbol values at its ACTUAL address, failed constraints discarded, and the unique smallest \
          encoding must have the claimed size and equal the emitted bits; bits, length and symbols must equal the recomputation; a #res / #align / #addr whose amount depends on the layout itself (a constant defined from labels further down) takes the position the assembler gives the next item and must evaluate to exactly that amount with the final symbols (directed templates: a lagging constant; a statically known prefix followed by such a directive, a label and a short/long instruction naming it; a constant whose WIDTH depends on a label behind the instruction that reads it through forward constants). An error outcome is accepted. \
+         (v4) one case in 24 is the template same-text-in-two-scopes: `lit .len` under two global labels, a literal constant in the first scope, `.len = $ - second` behind 1-8 short/long instructions in the second, with the width cascade `lit {x: u4}` / `lit {x: u8}`. \
          Non-trivial = success with an instruction whose emitted size differs from the largest candidate size, or >= 3 passes; distinct by hash of source."
             .to_string()
     }
